@@ -118,6 +118,7 @@ def run_unit(uid, timeout_ms=10000):
             "model": model,
             "reason": why,
             "smt_head": sample,
+            "structural": any(ob.meta.get("structural") for ob in obs),
         }
     covers = {}
     for name, lst in ex.covers.items():
